@@ -8,6 +8,7 @@ def question_match_probe : List Bool := [true, true, false, false, false, false,
 def shape_answer_clears_sections : Bool := true
 def shape_answer_filters_before_splice : Bool := true
 def shape_delegation_guard_first : Bool := true
+def shape_dname_target_resolved_separately : Bool := true
 def shape_exchange_checks_question : Bool := true
 def shape_level_is_zone_depth : Bool := true
 def shape_lookup_applies_rule : Bool := true
